@@ -409,7 +409,7 @@ def snapshot(root):
     for p, n in walk_nodes(root):
         try:
             # a lazy stack's names are derived from its members' (and memoised): only the members' own names are state
-            names = None if is_lazy(n) else (list(n.names) if n._has_names() else None)
+            names = ["<stack-dim>", n.__dict__.get("_td_dim_name")] if is_lazy(n) else (list(n.names) if n._has_names() else None)
         except Exception as e:  # noqa: BLE001
             names = "raise:" + type(e).__name__
         nodes["/".join(p)] = {"bs": list(n.batch_size), "names": names, "dev": str(n.device), "keys": [k for k, _ in children(n)],
